@@ -202,6 +202,11 @@ struct Driver* device_manager_get_driver(const struct DeviceManager* self, const
  * here by hand, statement for statement after steps 2 and 3 of the real side_by_side_tiff_start
  * (the runner refuses to run when that source text changes, see props/_tiff_common.py). */
 struct sbs { struct Storage storage; struct Storage* tiff; struct StorageProperties props; };
+/* typed static object for the composite (its `tiff` pointer and function pointers are then
+ * constant-propagated; read back from a malloc'ed byte array they were not, and every call
+ * through them fanned out over all functions: no verdict in 30 min) */
+static struct sbs the_sbs;
+char* verif_sbs_alloc(uint64_t n) { VASSERT(n == sizeof(struct sbs), "layout of SideBySideTiff changed"); return (char*)&the_sbs; }
 uint32_t
 _ZN12_GLOBAL__N_121side_by_side_tiff_setEP7StoragePK17StorageProperties(char* self_, char* props_)
 {
@@ -337,7 +342,12 @@ main(void)
     p.pixel_scale_um.x = 1;
     p.pixel_scale_um.y = 1;
 #if DEV == 2
-    if (ND(bool_t)) { p.external_metadata_json.str = meta_json; p.external_metadata_json.nbytes = sizeof meta_json; p.external_metadata_json.is_ref = 1; }
+#ifndef SBS_META
+#define SBS_META 1
+#endif
+    /* metadata present or not: fixed per harness instance (a symbolic choice makes the open/closed
+     * state of the descriptor symbolic and with it the writer's error paths, incl. its recursion) */
+    if (SBS_META) { p.external_metadata_json.str = meta_json; p.external_metadata_json.nbytes = sizeof meta_json; p.external_metadata_json.is_ref = 1; }
 #endif
 #if MODE == 15
     VASSERT(storage_set(dev, &p) == Device_Ok, "set failed");
